@@ -123,65 +123,7 @@ func runC09(c *Ctx) {
 			r.Add("R3", "write-caller:"+c.FuncKey(fn), c.InstrPos(cs), c.FuncKey(fn), "only the send goroutine writes lines to the socket (a second writer would interleave with a pending write)", ok, kindName(cs)+" in "+c.FuncKey(fn))
 		}
 	}
-	// (b) socket writers: the write function, or the one helper it calls with its line to do the socket write
-	leaf, _ := c.writerLeaf(writeFn)
-	if leaf == nil {
-		leaf = writeFn
-	}
-	nW := 0
-	for _, fn := range funcs {
-		funcInstrs(fn, func(in ssa.Instruction) {
-			cs, ok := in.(ssa.CallInstruction)
-			if !ok {
-				return
-			}
-			cc := cs.Common()
-			if _, isB := cc.Value.(*ssa.Builtin); isB {
-				return
-			}
-			// does any argument (or receiver) derive from the socket / buffered I/O?
-			uses := false
-			var all []ssa.Value
-			if cc.IsInvoke() {
-				all = append(all, cc.Value)
-			}
-			all = append(all, cc.Args...)
-			for _, arg := range all {
-				if c.derivesFromField(arg, a.IO) || c.derivesFromField(arg, a.Sock) {
-					uses = true
-				}
-			}
-			if !uses {
-				return
-			}
-			n := calleeName(cc)
-			switch {
-			case n == "(*bufio.Reader).ReadString" || n == "(*bufio.Reader).ReadBytes":
-				return // reading: C03
-			case n == "(net.Conn).Close" || n == "bufio.NewReader" || n == "bufio.NewWriter" || n == "bufio.NewReadWriter" || n == "crypto/tls.Client" || n == "(*crypto/tls.Conn).Handshake" ||
-				strings.HasSuffix(n, "Conn).SetDeadline") || strings.HasSuffix(n, "Conn).SetReadDeadline") || strings.HasSuffix(n, "Conn).SetWriteDeadline"):
-				return // lifecycle; deadlines put nothing on the wire (C07.R8 watches them)
-			case n == "(*bufio.Writer).WriteString":
-				nW++
-				ok, why := fn == leaf, "in "+c.FuncKey(fn)
-				if ok {
-					ok, why = c.crlfOfParam(cc.Args[1], fn)
-				}
-				if ok && c.LoopDepth(in.Block()) != 0 {
-					ok, why = false, "WriteString in a loop"
-				}
-				r.Add("R3", "socket-write:"+c.FuncKey(fn)+":WriteString", c.InstrPos(in), c.FuncKey(fn), "the only data write is WriteString(line+CRLF) in the write function", ok, why)
-			case n == "(*bufio.Writer).Flush":
-				ok := fn == leaf && c.LoopDepth(in.Block()) == 0
-				r.Add("R3", "socket-write:"+c.FuncKey(fn)+":Flush", c.InstrPos(in), c.FuncKey(fn), "Flush only in the write function, once", ok, "in "+c.FuncKey(fn))
-			case c.socketLifecycleHelper(cc):
-				return // set-up helper: wraps / handshakes / closes only
-			default:
-				r.Add("R3", "socket-use:"+c.FuncKey(fn)+":"+n, c.InstrPos(in), c.FuncKey(fn), "no other function is handed the socket or its writer", false, "socket/writer passed to "+n)
-			}
-		})
-	}
-	r.Exactly("R3", "WriteString sites on the connection writer", nW, 1)
+	c.socketWritersRule("R3", writeFn)
 	if writeFn != nil {
 		c.writeCompleteRule("R3", writeFn)
 	}
@@ -1276,4 +1218,72 @@ func (c *Ctx) formatterReacquireRule(rule string, funcs []*ssa.Function) {
 		}
 	}
 	r.Add(rule, "formatter-arguments", "-", "", "interface arguments of logging / fmt calls examined", true, fmt.Sprintf("%d arguments", n))
+}
+
+// socketWritersRule: the only data write to the connection is
+// WriteString(line + CRLF) of the write function's own, unmodified line
+// parameter (in the write function or its writer leaf), outside loops;
+// nothing else is handed the socket or its writer.
+func (c *Ctx) socketWritersRule(rule string, writeFn *ssa.Function) {
+	r, a := c.R, c.A
+	funcs := c.clientFuncs()
+	// (b) socket writers: the write function, or the one helper it calls with its line to do the socket write
+	leaf, _ := c.writerLeaf(writeFn)
+	if leaf == nil {
+		leaf = writeFn
+	}
+	nW := 0
+	for _, fn := range funcs {
+		funcInstrs(fn, func(in ssa.Instruction) {
+			cs, ok := in.(ssa.CallInstruction)
+			if !ok {
+				return
+			}
+			cc := cs.Common()
+			if _, isB := cc.Value.(*ssa.Builtin); isB {
+				return
+			}
+			// does any argument (or receiver) derive from the socket / buffered I/O?
+			uses := false
+			var all []ssa.Value
+			if cc.IsInvoke() {
+				all = append(all, cc.Value)
+			}
+			all = append(all, cc.Args...)
+			for _, arg := range all {
+				if c.derivesFromField(arg, a.IO) || c.derivesFromField(arg, a.Sock) {
+					uses = true
+				}
+			}
+			if !uses {
+				return
+			}
+			n := calleeName(cc)
+			switch {
+			case n == "(*bufio.Reader).ReadString" || n == "(*bufio.Reader).ReadBytes":
+				return // reading: C03
+			case n == "(net.Conn).Close" || n == "bufio.NewReader" || n == "bufio.NewWriter" || n == "bufio.NewReadWriter" || n == "crypto/tls.Client" || n == "(*crypto/tls.Conn).Handshake" ||
+				strings.HasSuffix(n, "Conn).SetDeadline") || strings.HasSuffix(n, "Conn).SetReadDeadline") || strings.HasSuffix(n, "Conn).SetWriteDeadline"):
+				return // lifecycle; deadlines put nothing on the wire (C07.R8 watches them)
+			case n == "(*bufio.Writer).WriteString":
+				nW++
+				ok, why := fn == leaf, "in "+c.FuncKey(fn)
+				if ok {
+					ok, why = c.crlfOfParam(cc.Args[1], fn)
+				}
+				if ok && c.LoopDepth(in.Block()) != 0 {
+					ok, why = false, "WriteString in a loop"
+				}
+				r.Add(rule, "socket-write:"+c.FuncKey(fn)+":WriteString", c.InstrPos(in), c.FuncKey(fn), "the only data write is WriteString(line+CRLF) in the write function", ok, why)
+			case n == "(*bufio.Writer).Flush":
+				ok := fn == leaf && c.LoopDepth(in.Block()) == 0
+				r.Add(rule, "socket-write:"+c.FuncKey(fn)+":Flush", c.InstrPos(in), c.FuncKey(fn), "Flush only in the write function, once", ok, "in "+c.FuncKey(fn))
+			case c.socketLifecycleHelper(cc):
+				return // set-up helper: wraps / handshakes / closes only
+			default:
+				r.Add(rule, "socket-use:"+c.FuncKey(fn)+":"+n, c.InstrPos(in), c.FuncKey(fn), "no other function is handed the socket or its writer", false, "socket/writer passed to "+n)
+			}
+		})
+	}
+	r.Exactly(rule, "WriteString sites on the connection writer", nW, 1)
 }
